@@ -25,6 +25,24 @@ func (c zzCtx) Value(key any) any           { return nil }
 
 func contextBackground() context.Context { return zzCtx{} }
 
+// zzLateCtx is alive for its first `alive` consultations and cancelled from
+// then on: a deadline that expires while a render is under way.
+type zzLateCtx struct {
+	alive int
+	calls *int
+}
+
+func (c zzLateCtx) Deadline() (time.Time, bool) { return time.Time{}, false }
+func (c zzLateCtx) Done() <-chan struct{}       { return nil }
+func (c zzLateCtx) Value(key any) any           { return nil }
+func (c zzLateCtx) Err() error {
+	*c.calls++
+	if *c.calls > c.alive {
+		return context.Canceled
+	}
+	return nil
+}
+
 // zzFS is a small in-memory filesystem (path -> content) implementing
 // fs.FS, fs.ReadFileFS, fs.StatFS and fs.ReadDirFS with ordinary Go code.
 type zzFS struct {
